@@ -186,6 +186,19 @@ pub fn run(rep: &Report) -> i32 {
     for (name, text) in crate::tokens::examples() {
         progs.push(FlowProgram { text, witnesses: vec![], label: format!("example {name}"), uninspected_by_construction: false });
     }
+    // witnesses far larger than any example: list bounds 1024 .. 4096, byte strings above 256 bits of awkward length;
+    // never inspected, or only their small neighbour inspected
+    for ty in [Ty::list(Ty::U(8), 1024), Ty::list(Ty::U(8), 2048), Ty::list(Ty::U(16), 4096), Ty::arr(Ty::U(8), 33), Ty::arr(Ty::U(8), 100), Ty::arr(Ty::U(8), 65)] {
+        let t = ty.render();
+        progs.push(FlowProgram { text: format!("fn main() {{\n    let x: {t} = witness::L;\n}}\n"), witnesses: vec![("L".into(), ty.clone())], label: format!("large unused-variable:{t}"), uninspected_by_construction: true });
+        let pair = Ty::tup(vec![Ty::U(8), ty.clone()]);
+        progs.push(FlowProgram {
+            text: format!("fn main() {{\n    let (a, l): (u8, {t}) = witness::P;\n    assert!(jet::eq_8(a, a));\n}}\n"),
+            witnesses: vec![("P".into(), pair)],
+            label: format!("large partial-pattern:{t}"),
+            uninspected_by_construction: true,
+        });
+    }
     rep.set("bounds", json!({"programs": progs.len(), "flows": FLOWS, "types": wide_types(quick).iter().map(|t| t.render()).collect::<Vec<_>>(), "witnesses_per_program": "1..3", "maps": "complete product of per-witness value alphabets (<= 4 values each) + each name missing + empty map"}));
     par_for(&progs, rep, 8, |i, p| {
         drive::DUMMY.with(|env| check_flow(rep, p, i, env));
